@@ -2,6 +2,7 @@ import GoBatcher.Driver.Admit
 import GoBatcher.Driver.Cycle
 import GoBatcher.Driver.Buffer
 import GoBatcher.Driver.HistMon
+import GoBatcher.Driver.Setters
 open GoBatcher.Driver
 
 structure Tot where
@@ -17,6 +18,7 @@ def handle (line : String) : Option (Option String × List (String × String)) :
   else if line.startsWith "cycle " then some (checkCycle inp obs)
   else if line.startsWith "buffer " then some (checkBuffer inp obs)
   else if line.startsWith "hist " then some (checkHist inp obs)
+  else if line.startsWith "setters " then some (checkSetters inp obs)
   else none
 
 partial def loop (h : IO.FS.Stream) (t : Tot) (n : Nat) : IO Tot := do
